@@ -13,6 +13,8 @@
 (*   [nout   |-> number of declared outputs (1: plain function; >1: a      *)
 (*               generator whose i-th value belongs to the i-th output),   *)
 (*    yields |-> number of values the callable really yields,              *)
+(*    yvals  |-> <<what the i-th yielded value is: "t" (spells the call)   *)
+(*               or a literal "None" / "0" / "''" / "False">>,             *)
 (*    coords |-> <<label of the coordinate of the i-th output>>,           *)
 (*    inputs |-> << <<parent index, 0-based output number>> >>  (the k-th  *)
 (*               input is called "input<k-1>"),                            *)
@@ -56,8 +58,12 @@ Args(st, k, v) ==
     [] st = 6 -> IF k = 0 THEN <<v, IntA(7), v>> ELSE IF k = 1 THEN <<InA(1), v, v>> ELSE <<InA(2), InA(1), v, v>>
 Kwargs(st, v) == IF st % 2 = 1 THEN <<>> ELSE <<<<"k", v>>, <<"z", StrA("s")>>>>
 Coords(n) == [i \in 1..n |-> "c" \o ToString(i - 1)]
-MkNodeV(nout, yields, ins, st, v) == [nout |-> nout, yields |-> yields, coords |-> Coords(nout), inputs |-> ins,
-                                      args |-> Args(st, Len(ins), v), kwargs |-> Kwargs(st, v)]
+\* yvals[i]: what the generator yields as its i-th value: "t" = a value spelling out the call (\o "#i"), or one of the
+\* literals "None", "0", "''", "False" (a generator may legitimately produce None / falsy values, e.g. a bare `yield`)
+Terms(m) == [i \in 1..m |-> "t"]
+MkNodeY(nout, yields, ins, st, v, yv) == [nout |-> nout, yields |-> yields, yvals |-> yv, coords |-> Coords(nout), inputs |-> ins,
+                                          args |-> Args(st, Len(ins), v), kwargs |-> Kwargs(st, v)]
+MkNodeV(nout, yields, ins, st, v) == MkNodeY(nout, yields, ins, st, v, Terms(yields))
 MkNode(nout, yields, ins, st) == MkNodeV(nout, yields, ins, st, IntA(7))
 
 \* (1) argument binding: every DAG with <= MaxN nodes, the first and the last node with one or two outputs
@@ -75,14 +81,24 @@ BindCases == UNION {UNION {{[nodes |-> [j \in 1..n |-> MkNodeV(nouts[j], nouts[j
 \* (2) output binding: a generator g with N outputs (optionally fed by a source) yielding N - 1, N or N + 1 values,
 \*     and, when the count is right, no consumer / a consumer of one output / a consumer of two outputs
 Idx(N) == {0, 1, 2, 9, 10, N - 1} \cap (0..(N - 1))
-GenGraph(N, M, fed, cons) ==
+GenGraphY(N, M, fed, cons, yv) ==
   LET g == IF fed THEN 2 ELSE 1
       pre == IF fed THEN <<MkNode(1, 1, <<>>, 4)>> ELSE <<>>
-      gen == MkNode(N, M, IF fed THEN <<<<1, 0>>>> ELSE <<>>, 4)
+      gen == MkNodeY(N, M, IF fed THEN <<<<1, 0>>>> ELSE <<>>, 4, IntA(7), yv)
   IN [nodes |-> pre \o <<gen>> \o (IF cons = <<>> THEN <<>> ELSE <<MkNode(1, 1, [k \in DOMAIN cons |-> <<g, cons[k]>>], 3)>>)]
+GenGraph(N, M, fed, cons) == GenGraphY(N, M, fed, cons, Terms(M))
 Consumers(N) == {<<>>} \cup {<<i>> : i \in Idx(N)} \cup {<<i, j>> : <<i, j>> \in {p \in Idx(N) \X Idx(N) : p[1] # p[2]}}
+Literals == {"None", "0", "''", "False"}
 OutCases == UNION {{GenGraph(N, N, fed, cons) : fed \in BOOLEAN, cons \in Consumers(N)} : N \in GenOuts}
        \cup UNION {{GenGraph(N, M, fed, <<>>) : M \in {N - 1, N + 1}, fed \in BOOLEAN} : N \in GenOuts}
+\* (3) None / falsy yielded values: as every regular value, as the last regular value, as the surplus value of an N + 1 yield,
+\*     as the last value of an N - 1 yield
+FalsyCases ==
+          UNION {{GenGraphY(N, N, fed, cons, [i \in 1..N |-> l]) : fed \in BOOLEAN, cons \in {<<>>, <<0>>, <<N - 1>>}, l \in Literals} : N \in GenOuts}
+     \cup UNION {{GenGraphY(N, N, FALSE, cons, [i \in 1..N |-> IF i = N THEN l ELSE "t"]) : cons \in {<<>>, <<N - 1>>}, l \in Literals} : N \in GenOuts}
+     \cup UNION {{GenGraphY(N, N + 1, fed, <<>>, [i \in 1..(N + 1) |-> IF i = N + 1 THEN l ELSE "t"]) : fed \in BOOLEAN, l \in Literals} : N \in GenOuts}
+     \cup UNION {{GenGraphY(N, N + 1, FALSE, <<>>, [i \in 1..(N + 1) |-> l]) : l \in Literals} : N \in GenOuts}
+     \cup UNION {{GenGraphY(N, N - 1, FALSE, <<>>, [i \in 1..(N - 1) |-> l]) : l \in Literals} : N \in GenOuts}
 
 \* ======================================================================== reference semantics
 RECURSIVE JoinSeq(_, _)
@@ -94,7 +110,9 @@ FinalArgs(nd) == nd.args \o [m \in 1..Cardinality((1..Len(nd.inputs)) \ Mentione
                                InA(SetToSortSeq((1..Len(nd.inputs)) \ Mentioned(nd), LAMBDA x, y : x < y)[m])]
 PosOfInput(nd, k) == CHOOSE p \in DOMAIN FinalArgs(nd) : FinalArgs(nd)[p].t = "in" /\ FinalArgs(nd)[p].i = k
 RECURSIVE CallStr(_, _)
-OutStr(c, p, o) == IF c.nodes[p].nout = 1 THEN CallStr(c, p) ELSE CallStr(c, p) \o "#" \o ToString(o)
+OutStr(c, p, o) == IF c.nodes[p].nout = 1 THEN CallStr(c, p)
+                   ELSE IF c.nodes[p].yvals[o + 1] = "t" THEN CallStr(c, p) \o "#" \o ToString(o)
+                   ELSE c.nodes[p].yvals[o + 1]
 Render(c, j, a) == IF a.t = "int" THEN ToString(a.i)
                    ELSE IF a.t = "str" THEN "'" \o a.s \o "'"
                    ELSE IF a.t = "none" THEN "None"
@@ -159,7 +177,7 @@ Post(c, r) ==
   \cup (IF \A j \in good : nm(j) \notin SetOf(r.failures) THEN {} ELSE {"task_failure_without_cause"})
 
 \* ======================================================================== the two TLC passes
-Generate == JsonSerialize(IOEnv.CASES_FILE, SetToSeq(BindCases) \o SetToSeq(OutCases))
+Generate == JsonSerialize(IOEnv.CASES_FILE, SetToSeq(BindCases) \o SetToSeq(OutCases) \o SetToSeq(FalsyCases))
 Judge ==
   LET cs == JsonDeserialize(IOEnv.CASES_FILE)
       rs == JsonDeserialize(IOEnv.RESULTS_FILE)
